@@ -85,3 +85,21 @@ Definition i64_of_round (f : float) : Z :=
   | Some t => if (- two63 <=? t) && (t <? two63) then t else - two63
   | None => - two63
   end.
+
+(* ---- Slot.Check: what one iteration does with the controller's result ------------------------ *)
+Inductive slot_out :=
+| SContinue (sleep : option Z)    (* next controller, after util.Sleep(ns) when Some ns *)
+| SReturn.                        (* the loop is left with this controller's result *)
+
+Definition slot_dispatch (d : dec) : slot_out :=
+  match d with
+  | DPass => SContinue None                                        (* r == nil *)
+  | DWait ns => if 0 <? ns then SContinue (Some ns) else SContinue None
+  | DBlock _ => SReturn
+  | DSpin => SReturn
+  end.
+
+(* the (r == nil, r.Status(), r.NanosToWait()) view of a PerformChecking result *)
+Definition res_nil (d : dec) : bool := match d with DPass => true | _ => false end.
+Definition res_status (d : dec) : Z := match d with DPass => 0 | DBlock _ => 1 | DWait _ => 2 | DSpin => 1 end.
+Definition res_nanos (d : dec) : Z := match d with DWait ns => ns | _ => 0 end.
